@@ -59,7 +59,7 @@ pub struct ErrSource(Option<Box<dyn std::error::Error + Send + Sync + 'static>>)
     p = raw.impl_fn(IMPL, "parse")
     p.ret("ret")
     p.props_all = ["C11", "C10", "C12"]
-    p.props_safety = ["C12"]
+    p.props_safety = ["C12", "C13"]
     p.replace("Header::ref_from_prefix(", "shim_header_ref_from_prefix(", "R2", why="Pod cast behind a shim with the assumed address-aware contract")
     p.replace("Class::slice_from_prefix(", "shim_class_slice_from_prefix(", "R2")
     p.replace("Member::slice_from_prefix(", "shim_member_slice_from_prefix(", "R2", occ=1)
